@@ -276,4 +276,235 @@ theorem wmerge_comm {D : K} {t t' a b : WtdSummary K} {l₁ l₂ : List (K × K)
     (cmb_wtdsummary_merge D t a b).2 = (cmb_wtdsummary_merge D t' b a).2 :=
   (wmerge_repr (t := t) ha hb).2.1.unique ((wmerge_repr (t := t') hb ha).2.1.perm List.perm_append_comm)
 
+/-! ### Unit weights: the weighted summary is the unweighted one -/
+
+@[simp] theorem xsOf_unitW (xs : List K) : xsOf (unitW xs) = xs := by
+  simp [xsOf, unitW, Function.comp_def]
+
+theorem effective_unitW (xs : List K) : effective (unitW xs) = unitW xs := by
+  simp [effective, unitW]
+
+theorem WRepr.toRepr {D : K} {s : WtdSummary K} {xs : List K} (h : WRepr D s (unitW xs)) :
+    Repr D s.ds xs ∧ s.wsum = (xs.length : K) := by
+  have hnil : unitW xs = [] ↔ xs = [] := by simp [unitW]
+  refine ⟨?_, by rw [h.wsum, wtot_unitW]⟩
+  constructor
+  · exact h.cookie
+  · rw [h.count, unitW_length]
+  · have := h.bounded; rwa [xsOf_unitW] at this
+  · intro e; exact h.empty (hnil.mpr e)
+  · have := h.min_mem; rwa [xsOf_unitW] at this
+  · have := h.min_le; rwa [xsOf_unitW] at this
+  · have := h.max_mem; rwa [xsOf_unitW] at this
+  · have := h.le_max; rwa [xsOf_unitW] at this
+  · have := h.mean; rwa [wtot_unitW, wxsum_unitW] at this
+  · exact h.m2
+  · exact h.m3
+  · exact h.m4
+
+/-! ### The normalised moment sums used by the weighted accessors -/
+
+section normalized
+variable {D : K} {s : WtdSummary K} {l : List (K × K)}
+
+theorem normalized_of_pos (hW : 0 < s.wsum) :
+    cmi_wtdsummary_normalized_dom s ∧
+    cmi_wtdsummary_normalized s = { s.ds with m2 := s.ds.m2 * ((s.ds.count : K) / s.wsum),
+                                              m3 := s.ds.m3 * ((s.ds.count : K) / s.wsum),
+                                              m4 := s.ds.m4 * ((s.ds.count : K) / s.wsum) } := by
+  constructor
+  · simp only [cmi_wtdsummary_normalized_dom, gt_iff_lt, hW, if_true, and_true]
+    exact ne_of_gt hW
+  · simp only [cmi_wtdsummary_normalized, gt_iff_lt, hW, if_true]
+
+theorem normalized_of_not_pos (hW : ¬ 0 < s.wsum) :
+    cmi_wtdsummary_normalized_dom s ∧ cmi_wtdsummary_normalized s = s.ds := by
+  simp [cmi_wtdsummary_normalized_dom, cmi_wtdsummary_normalized, hW]
+
+theorem normalized_dom_always (s : WtdSummary K) : cmi_wtdsummary_normalized_dom s := by
+  by_cases hW : 0 < s.wsum
+  · exact (normalized_of_pos hW).1
+  · exact (normalized_of_not_pos hW).1
+
+/-- when the weights sum to the sample count (in particular: unit weights) nothing is rescaled -/
+theorem normalized_unit (hw : s.wsum = (s.ds.count : K)) : cmi_wtdsummary_normalized s = s.ds := by
+  by_cases hW : 0 < s.wsum
+  · rw [(normalized_of_pos hW).2, ← hw, div_self (ne_of_gt hW)]
+    simp
+  · exact (normalized_of_not_pos hW).2
+
+theorem WRepr.wsum_pos (h : WRepr D s l) (hne : l ≠ []) : 0 < s.wsum := by
+  rw [h.wsum]; exact wtot_pos h.pos hne
+
+theorem WRepr.m2_nonneg (h : WRepr D s l) : 0 ≤ s.ds.m2 := by
+  rw [h.m2]; exact WS_two_nonneg h.pos _
+
+end normalized
+
+/-! ### Rescaling all weights by a positive constant -/
+
+theorem xsOf_scaleW (c : K) (l : List (K × K)) : xsOf (scaleW c l) = xsOf l := by
+  simp [xsOf, scaleW, Function.comp_def]
+
+theorem effective_scaleW {c : K} (hc : c ≠ 0) (l : List (K × K)) : effective (scaleW c l) = scaleW c (effective l) := by
+  induction l with
+  | nil => rfl
+  | cons p l ih =>
+    by_cases hp : p.2 = 0
+    · simp [effective, scaleW, hp] at ih ⊢; exact ih
+    · simp [effective, scaleW, hp, hc] at ih ⊢; exact ih
+
+/-- the summary of the rescaled data: same count, extremes and mean; weight sum and moment sums multiplied by `c` -/
+theorem WRepr.scale {D c : K} {s s' : WtdSummary K} {l : List (K × K)} (h : WRepr D s l) (h' : WRepr D s' (scaleW c l))
+    (hc : 0 < c) :
+    s' = { ds := { s.ds with m2 := c * s.ds.m2, m3 := c * s.ds.m3, m4 := c * s.ds.m4 }, wsum := c * s.wsum } := by
+  apply h'.unique
+  have hnil : scaleW c l = [] ↔ l = [] := by simp [scaleW]
+  constructor
+  · exact h.cookie
+  · simp [h.count]
+  · intro p hp
+    simp only [scaleW, List.mem_map] at hp
+    obtain ⟨q, hq, rfl⟩ := hp
+    exact mul_pos hc (h.pos q hq)
+  · rw [xsOf_scaleW]; exact h.bounded
+  · simp [h.wsum, wtot_scaleW]
+  · intro e; exact h.empty (hnil.mp e)
+  · rw [xsOf_scaleW]; exact h.min_mem
+  · rw [xsOf_scaleW]; exact h.min_le
+  · rw [xsOf_scaleW]; exact h.max_mem
+  · rw [xsOf_scaleW]; exact h.le_max
+  · rw [wtot_scaleW, wxsum_scaleW, ← h.mean]; simp only; ring
+  · simp only; rw [WS_scaleW, h.m2]
+  · simp only; rw [WS_scaleW, h.m3]
+  · simp only; rw [WS_scaleW, h.m4]
+
+/-- hence the normalised moment sums do not change at all -/
+theorem normalized_scale {D c : K} {s s' : WtdSummary K} {l : List (K × K)} (h : WRepr D s l)
+    (h' : WRepr D s' (scaleW c l)) (hc : 0 < c) :
+    cmi_wtdsummary_normalized s' = cmi_wtdsummary_normalized s := by
+  rw [h.scale h' hc]
+  by_cases hne : l = []
+  · subst hne
+    have hw : s.wsum = 0 := by simpa using h.wsum
+    have h2 := h.m2; have h3 := h.m3; have h4 := h.m4
+    simp only [WS_nil] at h2 h3 h4
+    have e : ({ ds := { s.ds with m2 := c * s.ds.m2, m3 := c * s.ds.m3, m4 := c * s.ds.m4 }, wsum := c * s.wsum }
+        : WtdSummary K) = s := by
+      obtain ⟨ds, ws⟩ := s
+      cases ds
+      simp_all
+    rw [e]
+  · have hW := h.wsum_pos hne
+    have hW' : 0 < c * s.wsum := mul_pos hc hW
+    rw [(normalized_of_pos hW).2, (normalized_of_pos (s := _) hW').2]
+    have := ne_of_gt hW; have := ne_of_gt hc
+    simp only [DataSummary.mk.injEq, true_and]
+    refine ⟨?_, ?_, ?_⟩ <;> field_simp
+
+/-! ### Textbook weighted sample statistics (reliability weights; n = number of samples of non-zero weight) -/
+
+/-- weighted mean -/
+def wmean (l : List (K × K)) : K := wxsum l / wtot l
+/-- weighted (biased) central moment Σ w (x − mean)^k / Σ w -/
+def wcmoment (k : ℕ) (l : List (K × K)) : K := WS k (wmean l) l / wtot l
+/-- weighted sample variance, n/(n−1) · Σ w (x − mean)² / Σ w  (NIST/Dataplot convention; with equal weights the
+    ordinary unbiased sample variance) -/
+def wsampleVariance (l : List (K × K)) : K := (l.length : K) / ((l.length : K) - 1) * wcmoment 2 l
+def wsampleKurtosis (l : List (K × K)) : K :=
+  let n : K := l.length
+  (n - 1) / ((n - 2) * (n - 3)) * ((n + 1) * (wcmoment 4 l / (wcmoment 2 l) ^ 2 - 3) + 6)
+def wsampleSkewnessSq (l : List (K × K)) : K :=
+  let n : K := l.length
+  n * (n - 1) / (n - 2) ^ 2 * ((wcmoment 3 l) ^ 2 / (wcmoment 2 l) ^ 3)
+
+section waccessors
+variable {D : K} {s : WtdSummary K} {l : List (K × K)}
+
+theorem WRepr.m1_wmean (h : WRepr D s l) (hne : l ≠ []) : s.ds.m1 = wmean l := h.m1_eq hne
+
+theorem wmean_reported (h : WRepr D s l) (hne : l ≠ []) :
+    cmb_wtdsummary_mean_dom s ∧ cmb_wtdsummary_mean s = wmean l := by
+  simp only [cmb_wtdsummary_mean_dom, cmb_wtdsummary_mean, cmb_datasummary_mean_dom, cmb_datasummary_mean,
+    h.cookie_val, true_and, and_true]
+  exact h.m1_wmean hne
+
+theorem wvariance_reported (h : WRepr D s l) (hn : 2 ≤ l.length) :
+    cmb_wtdsummary_variance_dom s ∧ cmb_wtdsummary_variance s = wsampleVariance l := by
+  have hne : l ≠ [] := by intro e; subst e; simp at hn
+  have hW := h.wsum_pos hne
+  obtain ⟨hnd, hnv⟩ := normalized_of_pos hW
+  have hcnt : 1 < (cmi_wtdsummary_normalized s).count := by rw [hnv]; simp only; rw [h.count]; omega
+  obtain ⟨hd, hv⟩ := variance_formula (s := cmi_wtdsummary_normalized s) hcnt (by rw [hnv]; exact h.cookie_val)
+  refine ⟨by simp only [cmb_wtdsummary_variance_dom]; exact ⟨hnd, hd, trivial⟩, ?_⟩
+  simp only [cmb_wtdsummary_variance]
+  rw [hv, hnv]
+  simp only [wsampleVariance, wcmoment]
+  rw [h.count, h.m2, h.m1_wmean hne, h.wsum]
+  have : (2 : K) ≤ (l.length : K) := by exact_mod_cast hn
+  have : (l.length : K) - 1 ≠ 0 := by intro e; linarith
+  have := ne_of_gt (wtot_pos h.pos hne)
+  field_simp
+
+theorem wkurtosis_reported (h : WRepr D s l) (hn : 4 ≤ l.length) (hv : WS 2 (wmean l) l ≠ 0) :
+    cmb_wtdsummary_kurtosis_dom s ∧ cmb_wtdsummary_kurtosis s = wsampleKurtosis l := by
+  have hne : l ≠ [] := by intro e; subst e; simp at hn
+  have hW := h.wsum_pos hne
+  obtain ⟨hnd, hnv⟩ := normalized_of_pos hW
+  have hcnt : 3 < (cmi_wtdsummary_normalized s).count := by rw [hnv]; simp only; rw [h.count]; omega
+  obtain ⟨hd, hk⟩ := kurtosis_formula (s := cmi_wtdsummary_normalized s) hcnt (by rw [hnv]; exact h.cookie_val)
+  have h4 : (4 : K) ≤ (l.length : K) := by exact_mod_cast hn
+  have hn0 : (l.length : K) ≠ 0 := by intro e; linarith
+  have hn2 : (l.length : K) - 2 ≠ 0 := by intro e; linarith
+  have hn3 : (l.length : K) - 3 ≠ 0 := by intro e; linarith
+  have hWne := ne_of_gt (wtot_pos h.pos hne)
+  have hv' : WS 2 (wmean l) l ≠ 0 := hv
+  have hm2n : (cmi_wtdsummary_normalized s).m2 ≠ 0 := by
+    rw [hnv]; simp only
+    rw [h.count, h.m2, h.m1_wmean hne, h.wsum]
+    exact mul_ne_zero hv (div_ne_zero hn0 hWne)
+  refine ⟨by simp only [cmb_wtdsummary_kurtosis_dom]; exact ⟨hnd, hd.mpr hm2n, trivial⟩, ?_⟩
+  simp only [cmb_wtdsummary_kurtosis]
+  rw [hk, hnv]
+  simp only [wsampleKurtosis, wcmoment]
+  rw [h.count, h.m2, h.m4, h.m1_wmean hne, h.wsum]
+  field_simp
+
+theorem wskewness_reported {sqrt : K → K} {pow : K → K → K} (hr : RootFns sqrt pow) (h : WRepr D s l)
+    (hn : 3 ≤ l.length) (hv : WS 2 (wmean l) l ≠ 0) :
+    cmb_wtdsummary_skewness_dom sqrt pow s
+      ∧ (cmb_wtdsummary_skewness sqrt pow s) ^ 2 = wsampleSkewnessSq l
+      ∧ (0 < WS 3 (wmean l) l → 0 < cmb_wtdsummary_skewness sqrt pow s)
+      ∧ (WS 3 (wmean l) l < 0 → cmb_wtdsummary_skewness sqrt pow s < 0) := by
+  have hne : l ≠ [] := by intro e; subst e; simp at hn
+  have hW := h.wsum_pos hne
+  obtain ⟨hnd, hnv⟩ := normalized_of_pos hW
+  have hcnt : 2 < (cmi_wtdsummary_normalized s).count := by rw [hnv]; simp only; rw [h.count]; omega
+  have h3 : (3 : K) ≤ (l.length : K) := by exact_mod_cast hn
+  have hn0 : (0 : K) < (l.length : K) := by linarith
+  have hn2 : (l.length : K) - 2 ≠ 0 := by intro e; linarith
+  have hWpos := wtot_pos h.pos hne
+  have hWne := ne_of_gt hWpos
+  have hv' : WS 2 (wmean l) l ≠ 0 := hv
+  have hm2pos0 : 0 < s.ds.m2 := lt_of_le_of_ne h.m2_nonneg (by rw [h.m2, h.m1_wmean hne]; exact fun e => hv e.symm)
+  have hfpos : 0 < (l.length : K) / wtot l := div_pos hn0 hWpos
+  have hm2pos : 0 < (cmi_wtdsummary_normalized s).m2 := by
+    rw [hnv]; simp only; rw [h.count, h.wsum]; exact mul_pos hm2pos0 hfpos
+  obtain ⟨hd, hsq, F, hF, hval⟩ :=
+    skewness_formula hr (s := cmi_wtdsummary_normalized s) hcnt (by rw [hnv]; exact h.cookie_val) hm2pos
+  have hm3 : (cmi_wtdsummary_normalized s).m3 = WS 3 (wmean l) l * ((l.length : K) / wtot l) := by
+    rw [hnv]; simp only; rw [h.count, h.m3, h.m1_wmean hne, h.wsum]
+  refine ⟨by simp only [cmb_wtdsummary_skewness_dom]; exact ⟨hnd, hd, trivial⟩, ?_, ?_, ?_⟩
+  · simp only [cmb_wtdsummary_skewness]
+    rw [hsq, hnv]
+    simp only [wsampleSkewnessSq, wcmoment]
+    rw [h.count, h.m2, h.m3, h.m1_wmean hne, h.wsum]
+    have := ne_of_gt hn0
+    field_simp
+  · intro hp; simp only [cmb_wtdsummary_skewness]; rw [hval, hm3]; exact mul_pos hF (mul_pos hp hfpos)
+  · intro hp; simp only [cmb_wtdsummary_skewness]; rw [hval, hm3]
+    exact mul_neg_of_pos_of_neg hF (mul_neg_of_neg_of_pos hp hfpos)
+
+end waccessors
+
 end CimbaModel.Stats
